@@ -93,6 +93,17 @@ class CmdSeq(SubCheck):
         out.nontrivial.append(d)
         if p is not None:
             out.outcome = tuple(type(s).__name__[0] for s in p) + (repr(p[-1].end),)
+        # the result of a parse belongs to its caller: transforming / editing it in place must leave the meaning of the
+        # same string, parsed again, untouched (a parser that memoises or shares segment objects fails here)
+        if p is not None and len(p) > 1:
+            try:
+                p *= self.svg.Matrix(2, 0, 0, -3, 5, 7)
+                p.reify()
+                p[-1].end = self.svg.Point(-99.5, 99.5)
+                del p[0]
+            except Exception:  # noqa  (editing the path is not what is being checked)
+                pass
+            run_string(self.svg, d, out, dict(d=d, second_parse=True))
         # compact spelling (no blank between commands) and flags shifted by two must mean the same / be right too
         spec = [(s[0], int(s[1:])) for s in case["spec"]]
         d2 = "".join(self.builder2.build(spec, pairsep=" "))
